@@ -36,7 +36,7 @@ type Case struct {
 var twinKinds = []string{"reroot", "outgroup", "midpoint", "unroot", "prune", "collapse_len", "collapse_sup", "collapse_depth",
 	"resolve", "rotate", "sort", "rotate_node", "graft", "identical", "identical_one", "single_nodes",
 	"nni", "nni_double", "rename", "rename_auto", "rename_regexp", "shuffle_tips", "reinit", "clear_lengths", "clear_supports",
-	"comments_set", "comments_clear", "comments_add", "comments_set", "comments_add", "scale_lengths", "round_supports"}
+	"comments_set", "comments_clear", "comments_add", "comments_set", "comments_add", "edge_comments_set", "edge_comments_set", "scale_lengths", "round_supports"}
 
 func baseOpts(thorough bool) gen.Opts {
 	o := gen.Opts{MinTips: 3, MaxTips: 10, BigTips: 30, Rooted: -1, MaxDeg: 5, Lens: gen.AnyPresence, LenVals: gen.Dyadic, Sups: gen.AnyPresence, InnerNames: gen.AnyPresence}
@@ -93,6 +93,21 @@ func genCase(t *rapid.T, thorough bool) Case {
 			}
 			grp = rapid.Permutation(grp).Draw(t, "gorder")
 			c.Groups = append(c.Groups, grp)
+		}
+		// a later group may be anchored on a tip inserted by an earlier group
+		if rapid.IntRange(0, 2).Draw(t, "chained") == 0 {
+			var inserted []string
+			for _, g := range c.Groups {
+				for _, n := range g {
+					if strings.HasPrefix(n, "new") {
+						inserted = append(inserted, n)
+					}
+				}
+			}
+			if len(inserted) > 0 {
+				anchor := inserted[rapid.IntRange(0, len(inserted)-1).Draw(t, "anchor")]
+				c.Groups = append(c.Groups, rapid.Permutation([]string{anchor, "chain1", "chain2"}).Draw(t, "chainorder"))
+			}
 		}
 		switch rapid.IntRange(0, 7).Draw(t, "bad") {
 		case 0:
@@ -393,15 +408,23 @@ func check(c Case) error {
 		for i, n := range na {
 			ia[n] = i
 		}
+		exists := map[string]bool{}
+		for _, n := range old {
+			exists[n] = true
+		}
 		for _, g := range c.Groups {
+			// the member that exists when the group is processed is the model of the others
 			model := ""
 			for _, n := range g {
-				if isOld[n] {
+				if exists[n] {
 					model = n
 				}
 			}
 			for _, n := range g {
-				if isOld[n] {
+				exists[n] = true
+			}
+			for _, n := range g {
+				if n == model {
 					continue
 				}
 				all = append(all, n)
@@ -555,6 +578,16 @@ func runTwin(c Case) (applied int, err error) {
 	if c.EditSrc {
 		edited, watched = a, b
 	}
+	// both trees are indexed when the case says so (SubTree indexes its result itself; a clone of
+	// an indexed tree is re-indexed here as a user would before using its splits)
+	watchedIndexed := c.Indexed && len(watched.Tips()) >= 3 && watched.Root().Nneigh() >= 2
+	if watchedIndexed {
+		if err := watched.ReinitIndexes(); err != nil {
+			watchedIndexed = false
+		} else if err := gt.IndexesExact(watched); err != nil {
+			return 0, fmt.Errorf("indexes of a freshly indexed tree: %v", err)
+		}
+	}
 	want := watched.Newick()
 	st := ops.State{T: edited}
 	for i, op := range c.Ops {
@@ -570,6 +603,15 @@ func runTwin(c Case) (applied int, err error) {
 		}
 		if err := gt.Structural(watched); err != nil {
 			return applied, fmt.Errorf("step %d (%s) on the %s damaged the other tree (copy made by %s): %v\n tree %s", i, op.Kind, map[bool]string{true: "source", false: "copy"}[c.EditSrc], c.Via, err, ref.Write(c.Tree))
+		}
+		if watchedIndexed {
+			// re-index the edited tree as a user would, then the untouched tree's indexes must still describe it
+			if status == ops.Applied && st.T == edited && len(edited.Tips()) >= 3 {
+				edited.ReinitIndexes()
+			}
+			if err := gt.IndexesExact(watched); err != nil {
+				return applied, fmt.Errorf("step %d (%s) on the %s (then re-indexed) corrupted the indexes of the other tree (copy made by %s): %v\n tree %s", i, op.Kind, map[bool]string{true: "source", false: "copy"}[c.EditSrc], c.Via, err, ref.Write(c.Tree))
+			}
 		}
 		if st.T != edited {
 			break // the operation continued on a new object
